@@ -14,7 +14,8 @@ fact `loopsHeaded` of the generated table - and the other loops are bounded); `b
 
 Semantics of one point, after `cancel`:
 * `ctxSelect`  - a `select` with a `<-ctx.Done()` case (or an explicit ctx check): the worker returns;
-* `sleep true` - `time.Sleep` of a configured interval: completes by itself;
+* `sleep true` - `time.Sleep` of a configured interval: completes by itself - but only when that interval is over, so it
+                 is NOT a guarded point (the property demands a prompt stop whatever the configuration);
 * `sleep false`- `time.Sleep` of a computed, unbounded duration: completes only when the environment lets that
                  time elapse (`Act.elapse`); cancel does not interrupt it;
 * `send/recv ch true`  - inside a `select` that has a ctx case or a `default`: never parks the worker after cancel;
@@ -55,7 +56,8 @@ inductive BP
 by counting the senders against the capacity of `errCh`) -/
 def BP.guarded : BP → Bool
   | .ctxSelect => true
-  | .sleep b => b
+  | .sleep _ => false   -- cancel does not interrupt `time.Sleep`: "bounded by a configured duration" is not "promptly,
+                        -- whatever the configuration"; `boundedByCfg` only says whether the sleep ends by itself
   | .send _ g => g
   | .recv _ g => g
   | .errSend => true
